@@ -195,7 +195,7 @@ def run_kani_unit(plan, k, out, tier):
     r = kani_run.run(prop, k["crate"], filters, jobs=jobs, harness_timeout=ht,
                      extra_args=k.get("extra_args"), extra_files=extra_files,
                      total_timeout=k.get("total_timeout", 5400))
-    out.checker_cmds.append("(cd build/%s/kani && CARGO_NET_OFFLINE=true %s)" % (prop, r["cmd"]))
+    out.checker_cmds.append("(cd build/%s/kani-%s && CARGO_NET_OFFLINE=true %s)" % (prop, k["crate"], r["cmd"]))
     if not r["build_ok"]:
         out.infra.append("kani crate %s did not build/run: %s" % (k["crate"], r["log_tail"][-1500:]))
         return
